@@ -33,7 +33,7 @@ ASSUMPTIONS = [
     "cache step: _get_griffe_node replaced by a finite table (4 names incl. a constructor; each unknown to griffe, known without docstring, or with docstring)",
 ]
 BOUNDS = {"quick": "descriptions <= 5 chars, example lines <= 7 chars; zoo shapes one at a time; cache: 4 names",
-          "thorough": "descriptions <= 7 chars, example lines <= 8 chars; zoo full product"}
+          "thorough": "descriptions <= 6 chars, example lines <= 8 chars; zoo full product"}
 MANIFEST = {
     "text": "Bounded symbolic, partial: line-for-line transport decided by z3 for all texts within the bound; "
             "attachment by CrossHair over the zoo; the cache by one inductive step from an arbitrary valid state. The "
